@@ -46,7 +46,8 @@ pub fn break_long_string(last_str: &str) -> bool {
 pub fn break_variable_arguments(last_string: &str) -> bool {
     if let Some('.') = last_string.chars().last() {
         true
-    } else if let Some(first_char) = last_string.chars().next() {
+    } else if let Some(first_char) = last_string.trim_start_matches('-').chars().next() {
+        // a number (which may be written with a minus sign)
         first_char == '.' || first_char.is_ascii_digit()
     } else {
         false
@@ -72,7 +73,8 @@ pub fn break_equal(last_string: &str) -> bool {
 pub fn break_concat(last_string: &str) -> bool {
     if let Some('.') = last_string.chars().last() {
         true
-    } else if let Some(first_char) = last_string.chars().next() {
+    } else if let Some(first_char) = last_string.trim_start_matches('-').chars().next() {
+        // a number (which may be written with a minus sign)
         first_char == '.' || first_char.is_ascii_digit()
     } else {
         false
